@@ -260,7 +260,7 @@ def _w_rt(res, p):
         s.add(*U.side)
         s.add(goal)
         t0 = time.time()
-        r = str(s.check())
+        r = str(_ST().bounded_check(s, timeout_ms))
         res.d["solver_s"] += time.time() - t0
         res.d["solver_queries"] += 1
         if r == "unsat":
@@ -323,7 +323,7 @@ def _twin(res, p, timeout_ms):
             s.add(z3.And(v <= 10, v >= -10, z3.Or(v >= z3.RealVal("1/10"), v <= z3.RealVal("-1/10"))))
         s.add(*U.side)
         s.add(z3.Or(dre > tau, dre < -tau, dim > tau, dim < -tau))
-        if str(s.check()) == "sat":
+        if str(_ST().bounded_check(s, timeout_ms)) == "sat":
             res.d["vacuity_ok"] += 1
         else:
             res.herr(f"vacuity twin not refuted: {e} vs corrupted round trip {e2}")
